@@ -44,24 +44,6 @@ fn ldro_rule_sx1276() {
     }
 }
 
-//@h id=ldro_bit_sx1276 props=C15,C13 tier=thorough build=phy cost=900 timeout=3000
-//@bounds SX1276 set_modulation_params with the LDRO flag symbolic (SF12/125 kHz, any CR), arbitrary prior register contents: RegModemConfig3 bit 3 equals the flag
-//@encodes Sx1276::set_modulation_params
-#[kani::proof]
-#[kani::unwind(26)]
-fn ldro_bit_sx1276() {
-    let mut r = radio_1276();
-    r.data = Default::default();
-    let ldro: bool = kani::any();
-    let mp = ModulationParams { spreading_factor: SpreadingFactor::_12, bandwidth: Bandwidth::_125KHz, coding_rate: any_cr(), low_data_rate_optimize: ldro as u8, frequency_in_hz: 868_100_000 };
-    let res = block_on(r.set_modulation_params(&mp));
-    kani::assert(res.is_ok(), "set_modulation_params failed on a fault-free bus");
-    match last_write(spi(), 0x26) {
-        Some(v) => kani::assert((v & 0x08 != 0) == ldro, "C15: RegModemConfig3.LowDataRateOptimize programmed into the SX1276"),
-        None => kani::assert(false, "C15: RegModemConfig3 not written"),
-    }
-}
-
 //@h id=ldro_rule_sx1272 props=C15 tier=quick build=phy cost=20 timeout=900
 //@bounds all 8 SF x 10 BW x 4 CR (the SX1272 supports 125/250/500 kHz): LDRO decision
 //@encodes Sx127x::create_modulation_params, Sx1272::bandwidth_value
@@ -82,7 +64,7 @@ fn ldro_rule_sx1272() {
     }
 }
 
-//@h id=ldro_bit_sx1272 props=C15,C13 tier=quick build=phy cost=90 timeout=1200
+//@h id=ldro_bit_sx1272 props=C15 tier=quick build=phy cost=90 timeout=1200
 //@bounds SX1272 set_modulation_params with the LDRO flag symbolic, arbitrary prior register contents: RegModemConfig1 bit 0 equals the flag
 //@encodes Sx1272::set_modulation_params
 #[kani::proof]
@@ -126,7 +108,7 @@ fn tx_power_1276(boost: bool) {
     kani::assert(pout10 <= 10 * want && pout10 >= 10 * want - 10, "C17: programmed power is the clamped request (within 1 dB, never above)");
 }
 
-//@h id=tx_power_sx1276_boost props=C17,C13 tier=quick build=phy cost=30 timeout=900
+//@h id=tx_power_sx1276_boost props=C17 tier=quick build=phy cost=30 timeout=900
 //@bounds every i32 power request on the PA_BOOST path
 //@encodes Sx1276::set_tx_power, Sx127x::set_ocp
 #[kani::proof]
@@ -134,7 +116,7 @@ fn tx_power_1276(boost: bool) {
 fn tx_power_sx1276_boost() {
     tx_power_1276(true);
 }
-//@h id=tx_power_sx1276_rfo props=C17,C13 tier=quick build=phy cost=30 timeout=900
+//@h id=tx_power_sx1276_rfo props=C17 tier=quick build=phy cost=30 timeout=900
 //@bounds every i32 power request on the RFO path
 //@encodes Sx1276::set_tx_power
 #[kani::proof]
@@ -160,7 +142,7 @@ fn tx_power_1272(boost: bool) {
     let want = if req < lo { lo } else if req > hi { hi } else { req };
     kani::assert(pout == want, "C17: programmed power is the clamped request");
 }
-//@h id=tx_power_sx1272_boost props=C17,C13 tier=quick build=phy cost=30 timeout=900
+//@h id=tx_power_sx1272_boost props=C17 tier=quick build=phy cost=30 timeout=900
 //@bounds every i32 power request on the PA_BOOST path of the SX1272
 //@encodes Sx1272::set_tx_power
 #[kani::proof]
@@ -168,7 +150,7 @@ fn tx_power_1272(boost: bool) {
 fn tx_power_sx1272_boost() {
     tx_power_1272(true);
 }
-//@h id=tx_power_sx1272_rfo props=C17,C13 tier=quick build=phy cost=30 timeout=900
+//@h id=tx_power_sx1272_rfo props=C17 tier=quick build=phy cost=30 timeout=900
 //@bounds every i32 power request on the RFO path of the SX1272
 //@encodes Sx1272::set_tx_power
 #[kani::proof]
@@ -177,7 +159,7 @@ fn tx_power_sx1272_rfo() {
     tx_power_1272(false);
 }
 
-//@h id=symb_timeout_sx127x props=C17,C13 tier=quick build=phy cost=30 timeout=900
+//@h id=symb_timeout_sx127x props=C17 tier=quick build=phy cost=30 timeout=900
 //@bounds every u16 symbol count, arbitrary prior RegModemConfig2: the 10-bit SymbTimeout decodes to min(request, 1023) and the other bits of RegModemConfig2 are preserved
 //@encodes Sx127x::set_lora_symbol_num_timeout
 #[kani::proof]
@@ -365,14 +347,14 @@ fn ldro_kept_by_packet_params<C: Sx127xVariant>(mut r: Sx127x<RegSpi, MockIv, C>
 fn ldro_after_modulation_sx1276_bw125() {
     ldro_after_modulation(regradio_1276(), 0x26, 0x08, Bandwidth::_125KHz);
 }
-//@h id=ldro_after_modulation_sx1276_bw500 props=C15 tier=quick build=phy cost=300 timeout=1800
+//@h id=ldro_after_modulation_sx1276_bw500 props=C15 tier=thorough build=phy cost=300 timeout=1800
 //@bounds as ldro_after_modulation_sx1276_bw125 with BW 500 kHz (AutomaticIFOn branch)
 #[kani::proof]
 #[kani::unwind(26)]
 fn ldro_after_modulation_sx1276_bw500() {
     ldro_after_modulation(regradio_1276(), 0x26, 0x08, Bandwidth::_500KHz);
 }
-//@h id=ldro_after_modulation_sx1276_bw7 props=C15 tier=quick build=phy cost=300 timeout=1800
+//@h id=ldro_after_modulation_sx1276_bw7 props=C15 tier=thorough build=phy cost=300 timeout=1800
 //@bounds as ldro_after_modulation_sx1276_bw125 with BW 7.8 kHz (no errata writes below 62.5 kHz)
 #[kani::proof]
 #[kani::unwind(26)]
@@ -403,7 +385,7 @@ fn ldro_kept_by_packet_params_sx1272() {
 fn ldro_programmed_sx1276() {
     ldro_programmed(regradio_1276(), 0x26, 0x08, false);
 }
-//@h id=ldro_programmed_sx1272 props=C15 tier=quick build=phy cost=300 timeout=1800
+//@h id=ldro_programmed_sx1272 props=C15 tier=thorough build=phy cost=300 timeout=1800
 //@bounds SX1272, as ldro_programmed_sx1276: RegModemConfig1 bit 0 (BW 125/250/500 kHz)
 //@encodes Sx1272::{set_modulation_params, set_packet_params}
 #[kani::proof]
